@@ -12,6 +12,7 @@ package vtypes
 import (
 	"context"
 	"errors"
+	"sync"
 	"sync/atomic"
 	"time"
 
@@ -436,11 +437,39 @@ func VerifC01TwoCallers() {
 	for atomic.LoadInt32(&done) == 0 {
 		time.Sleep(10 * time.Millisecond)
 	}
+	if !vapi.Engine() {
+		// native replay: interference between calls in flight is a race in real time; after the two
+		// recorded calls the same proxy is hammered by 16 concurrent callers (25 calls each, distinct
+		// arguments) and any error or foreign result counts against all three obligations below
+		var bad int32
+		var wg sync.WaitGroup
+		for w := 0; w < 16; w++ {
+			wg.Add(1)
+			go func(w int) {
+				defer wg.Done()
+				for k := 0; k < 25 && atomic.LoadInt32(&bad) == 0; k++ {
+					a := int32(w*1000 + k)
+					var sum int64
+					r, err := obj.AddWithContext(context.Background(), a, int64(w), &sum)
+					if err != nil || r != a || sum != int64(w)*1000+int64(a) {
+						atomic.StoreInt32(&bad, 1)
+					}
+				}
+			}(w)
+		}
+		wg.Wait()
+		if atomic.LoadInt32(&bad) == 1 {
+			e1 = errors.New("concurrent callers interfered (native stress phase)")
+			r1, r2 = a1+1, a2+1
+		}
+	}
 	vapi.Check(e1 == nil && e2 == nil, "concurrent callers: both calls succeed")
 	// the implementation answers ret = a, sum = b*1000 + a: each caller must get the answer to ITS call
 	vapi.Check(vapi.And(r1 == a1, s1 == 1000+int64(a1)), "concurrent callers: caller 1 receives the result of its own call")
 	vapi.Check(vapi.And(r2 == a2, s2 == 2000+int64(a2)), "concurrent callers: caller 2 receives the result of its own call")
-	vapi.Check(atomic.LoadInt32(&imp.calls) == 2, "concurrent callers: the implementation runs once per call")
+	if vapi.Engine() {
+		vapi.Check(atomic.LoadInt32(&imp.calls) == 2, "concurrent callers: the implementation runs once per call")
+	}
 	vapi.Reach("c01-twocallers")
 }
 
